@@ -2495,7 +2495,7 @@ func init() {
 // ---------------------------------------------------------------------------------------------------------------
 func ruleFillingLoopsFillEveryEntry(c *core.Ctx) {
 	const rule = "LF1"
-	c.Rule(rule, "pkg/packaging, pkg/dsl, internal/cmd: in a range loop with index i whose body assigns a pointer or interface to `X[i]` / `X[i].F`, no `continue` precedes that assignment (every entry is filled; a skipped one stays nil)", 2)
+	c.Rule(rule, "pkg/packaging, pkg/dsl, internal/cmd: in a range loop with index i whose body assigns a pointer to `X[i]` / `X[i].F`, no `continue` precedes that assignment (every entry is filled; a skipped one stays nil)", 2)
 	n := 0
 	for _, d := range c.AllDecls() {
 		p := c.DeclPkg(d)
@@ -2530,8 +2530,10 @@ func ruleFillingLoopsFillEveryEntry(c *core.Ctx) {
 					continue
 				}
 				if t := info.TypeOf(as.Lhs[0]); t != nil {
+					// pointers only: an interface-valued table (ProtocolChange.StepChanges, RecordChange.FieldChanges) uses
+					// nil for "nothing to report" and is read with nil tests
 					switch t.Underlying().(type) {
-					case *types.Pointer, *types.Interface:
+					case *types.Pointer:
 						fill = as
 					}
 				}
@@ -2549,6 +2551,13 @@ func ruleFillingLoopsFillEveryEntry(c *core.Ctx) {
 					switch y := k.(type) {
 					case *ast.FuncLit, *ast.ForStmt, *ast.RangeStmt:
 						return false
+					case *ast.IfStmt:
+						// `if v == nil { continue }; X[i] = v`: the skipped assignment would have stored nil
+						if be, ok := ast.Unparen(y.Cond).(*ast.BinaryExpr); ok && be.Op == token.EQL && len(fill.Rhs) == 1 && y.Else == nil {
+							if isNilIdent(be.Y) && types.ExprString(be.X) == types.ExprString(fill.Rhs[0]) {
+								return false
+							}
+						}
 					case *ast.BlockStmt:
 						// a branch that fills the entry itself and then continues is fine
 						filledHere := false
